@@ -112,6 +112,19 @@ def run_c20(chk: Check) -> int:
     for a in pool:
         for b in pool:
             recs.append(rec_eq(a, b))
+    for a in pool[:30]:                     # near misses: one optional group absent <-> 0, one group changed by one
+        for i in (0, 1, 4, 5):
+            b = list(a)
+            b[i] = 0 if a[i] == NONE else (NONE if a[i] == 0 else a[i])
+            recs.append(rec_eq(a, b))
+            recs.append(rec_eq(b, a))
+            c = list(a)
+            c[i] = NONE if a[i] != NONE else 0
+            recs.append(rec_eq(a, c))
+        for i in (2, 3):
+            b = list(a)
+            b[i] = (a[i] + 1) % 256
+            recs.append(rec_eq(a, b))
     alphabet = "0123456789.-:* abzXY\t"
     for _ in range(3000 if quick else 40000):
         s = "".join(rng.choice(alphabet) for _ in range(rng.randint(0, 6)))
